@@ -55,8 +55,14 @@ class R(object):
     def long(self):
         return struct.unpack('>q', self.take(8))[0]
 
+    def _utf8(self, b):
+        try:
+            return b.decode('utf8')
+        except UnicodeDecodeError as e:
+            raise SpecError('a [string] is not valid UTF-8: %s' % e)
+
     def string(self):
-        return self.take(self.short()).decode('utf8')
+        return self._utf8(self.take(self.short()))
 
     def short_bytes(self):
         return self.take(self.short())
@@ -65,7 +71,7 @@ class R(object):
         n = self.int()
         if n < 0:
             raise SpecError('negative [long string] length')
-        return self.take(n).decode('utf8')
+        return self._utf8(self.take(n))
 
     def bytes_(self):
         n = self.int()
